@@ -205,6 +205,17 @@ CHECKS = {
     {"pkg": "./main", "test": "TestC15Recovery", "shards": {"quick": 7, "thorough": 7}},
   ],
  },
+ "C14": {
+  "engine": "E-HIST",
+  "rule": "exhaustive enumeration of traversal-shaped names in every name-bearing field of every route, sent to the real server wired by serverApp.init over the in-memory network; differential oracle: listing (names, sizes, hashes) of everything outside the authorised source's directories before and after each request, canary content in answers, no change at all for refused requests; distinct = distinct (field, name) pairs",
+  "level": "Every (field, name) pair of the stated grammar is sent to the real server; effects are observed on the real file system of a sandbox that contains the receiver's directories as a proper sub-directory.",
+  "note": "Bounds: see coverage.parts[].bound. Windows path semantics are exercised only as header values.",
+  "technique": "exhaustive input enumeration on the implementation, differential (before/after) oracle",
+  "assumptions": ["in-memory network below net/http", "Linux path semantics"],
+  "parts": [
+    {"pkg": "./main", "test": "TestC14", "shards": {"quick": 16, "thorough": 16}},
+  ],
+ },
 }
 
 NOT_APPLICABLE = {}
